@@ -9,6 +9,9 @@ import ArrModel.C14
 import ArrModel.C16
 import ArrModel.C19Pipe
 import ArrModel.C20
+import ArrModel.IndexExt
+import ArrModel.C14Ext
+import ArrModel.C17Lift
 /-!
 # ArrModel.C01 — the small-step store machine over the whole modelled operation set
 
@@ -80,6 +83,12 @@ def toNatArr (a : A) : Arr Nat := ⟨a.elems.map Int.toNat, a.shape⟩
 def ofNatArr (a : Arr Nat) : A := ⟨a.elems.map Int.ofNat, a.shape⟩
 def ofRatArr (a : Arr Rat) : A := ⟨a.elems.map Rat.floor, a.shape⟩
 def fstArr (a : Arr (Int × Int)) : A := ⟨a.elems.map (·.1), a.shape⟩
+/-- the `Array<String>` stand-in of a tag array: the same shape, one string per element (the shapes the string
+operations of `ArrModel/C17Lift.lean` answer with do not depend on the strings) -/
+def strArr (a : A) : C17.SArr := ⟨a.elems.map (fun _ => []), a.shape⟩
+/-- forget the elements of a result of any element type (String, bool, usize, isize, Tuple3, List<String>): the shape
+and the element COUNT are kept -/
+def blankArr {β : Type} (a : Arr β) : A := ⟨a.elems.map (fun _ => 0), a.shape⟩
 
 /-! ### the 1-D bodies handed to the axis wrappers (shape-level: the value is a tag) -/
 /-- `sum`/`prod`/`nansum`/`nanprod` of a lane: `Self::single(fold)` -/
@@ -164,6 +173,16 @@ inductive Op
   | packBits (a : Nat) (axis : Option Int) (order : List Char)
   -- operator overloads (`ops.rs`)
   | operator (k : OpKind) (a b : Nat)
+  -- indexing (`indexing.rs`): `slice`, `indices_at`
+  | slice (a : Nat) (start stop : Nat) | indicesAt (a : Nat) (indices : List Nat)
+  -- `filter_map` with the closure "keep the non-zero elements" (`iter.rs`; value-dependent like `filter`)
+  | filterMapNonzero (a : Nat)
+  -- `clip` with one or both bounds missing (`misc.rs:236-248`: the missing bound is `self.min(None)` / `self.max(None)`)
+  | clipOpt (a : Nat) (lo hi : Option Nat)
+  -- the string-array operations (`alphanumeric/operations/*.rs`), one constructor per lifting shape of `ArrModel/C17Lift.lean`
+  | strUnary (a : Nat) | strBinary (a b : Nat) | strStrip (a c : Nat) | strCompare (a b : Nat) (op : List Char)
+  | strMultiply (a n : Nat) | strSplitlines (a : Nat) (keep : Option Bool) | strPad (a w : Nat) (fill : Bool)
+  | strSplit (a : Nat) (sep : Option Nat) (maxSplit : Option Nat) | strReplace (a old new : Nat) (count : Option Nat)
   -- an unmodelled call: only what it returned is known
   | extern (e : Ext)
 
@@ -201,6 +220,28 @@ def evalMember (s : Store) (l j : Nat) : Val :=
   match getL s l with
   | some l => (match l[j]? with | some a => .arr a | none => .skip)
   | none => .skip
+
+/-- an optional operand position: `none` is "argument not given", a position that holds no array makes the step not applicable -/
+def getOpt (s : Store) : Option Nat → Option (Option A)
+  | none => some none
+  | some i => (getA s i).map some
+
+/-- a bound of `clip` (`misc.rs:237-240`): the given array, else `self.min(None)?` / `self.max(None)?` (shape `[1]`; panics on an
+array without elements) -/
+def clipBound (a : A) : Option A → Res A
+  | some b => .ok b
+  | none => a.reduceAxis 0 0 none extremeBody
+
+/-- `clip(a_min, a_max)` (`misc.rs:236-248`) in the order the code evaluates: lower bound, its `broadcast_to`, upper bound, its
+`broadcast_to`, then the zip of pattern R3 (`C04.clipLike`, whose own `broadcast_to` of an already stretched bound is the identity) -/
+def clipOptArr (a : A) (lo hi : Option A) : Res A :=
+  clipBound a lo >>= fun l => l.broadcastTo a.shape >>= fun lo' =>
+  clipBound a hi >>= fun h => h.broadcastTo a.shape >>= fun hi' =>
+  C04.clipLike (fun x l h => max l (min x h)) a lo' hi'
+
+/-- `split(sep, max_split)` on the stand-in strings; the limit is `Array::single(m)` -/
+def strSplitArr (a : A) (sep : Option A) (m : Option Nat) : Res A :=
+  (C17.splitA C17.Bcast.std (strArr a) (sep.map strArr) (m.map C17.single)).map blankArr
 
 /-- the outcome of one operation on the current store -/
 def eval (s : Store) : Op → Val
@@ -290,12 +331,34 @@ def eval (s : Store) : Op → Val
   | .outer a b => with2 s a b fun a b => ofRes (C14.outer a b)
   | .inner a b => with2 s a b fun a b => ofRes (C14.inner a b)
   | .matmul a b => with2 s a b fun a b => ofRes (C14.matmul a b)
-  | .dot a b => with2 s a b fun a b => match C14.dot a b with | some r => ofRes r | none => .skip
+  | .dot a b => with2 s a b fun a b => ofRes (C14.dotFull a b)
   | .unpackBits a axis count order => with1 s a fun a =>
       ofRes ((C19.unpackBits C19.alongPipe (toNatArr a) axis count (some (.text order))).map ofNatArr)
   | .packBits a axis order => with1 s a fun a =>
       ofRes ((C19.packBits C19.alongPipe (toNatArr a) axis (some (.text order))).map ofNatArr)
   | .operator k a b => with2 s a b fun a b => ofRes (k.run a b)
+  | .slice a start stop => with1 s a fun a => ofRes (a.slice start stop)
+  | .indicesAt a indices => with1 s a fun a => ofRes (a.indicesAt indices)
+  | .filterMapNonzero a => with1 s a fun a => ofRes (Iter.filterMap a (fun x => if x != 0 then some x else none))
+  | .clipOpt a lo hi => with1 s a fun a =>
+      match getOpt s lo, getOpt s hi with
+      | some lo, some hi => ofRes (clipOptArr a lo hi)
+      | _, _ => .skip
+  | .strUnary a => with1 s a fun a => ofRes ((C17.capitalizeA (strArr a)).map blankArr)
+  | .strBinary a b => with2 s a b fun a b => ofRes ((C17.add C17.Bcast.std (strArr a) (strArr b)).map blankArr)
+  | .strStrip a c => with2 s a c fun a c => ofRes ((C17.stripA C17.Bcast.std (strArr a) (some (strArr c))).map blankArr)
+  | .strCompare a b op => with2 s a b fun a b => ofRes ((C17.compareA C17.Bcast.std (strArr a) (strArr b) op).map blankArr)
+  | .strMultiply a n => with2 s a n fun a n => ofRes ((C17.multiplyA C17.Bcast.std (strArr a) (toNatArr n)).map blankArr)
+  | .strSplitlines a keep => with1 s a fun a =>
+      ofRes ((C17.splitlinesA C17.Bcast.std (strArr a) (keep.map C17.single)).map blankArr)
+  | .strPad a w fill => with2 s a w fun a w =>
+      ofRes ((C17.centerA C17.Bcast.std (strArr a) (toNatArr w) (if fill then some (C17.single '*') else none)).map blankArr)
+  | .strSplit a sep m => with1 s a fun a =>
+      match getOpt s sep with
+      | some sep => ofRes (strSplitArr a sep m)
+      | none => .skip
+  | .strReplace a o n cnt => with3 s a o n fun a o n =>
+      ofRes ((C17.replaceA C17.Bcast.std (strArr a) (strArr o) (strArr n) cnt).map blankArr)
   | .extern e => e.run
 
 /-- one step of the machine: the outcome is appended, nothing is ever removed or changed -/
